@@ -214,6 +214,18 @@ def _ambient_template(tape, stack, cache):
     return False
 
 
+def caching_flags_off(run_seed: int):
+    """The numeric entries 0..9 of the library's process-wide `flags` only say which
+    intermediate values an instruction also stores in the cache (b'x', b'R', b'sa', ...):
+    an embedder may switch any of them off; no verdict may move.  The subset is a
+    function of the run seed (no PRNG draw); reset_world restores the defaults."""
+    from .seams import F
+    off = [k for k in range(10) if (run_seed >> (3 * k + 5)) & 1]
+    for k in off:
+        F.flags[k] = False
+    return off
+
+
 def ambient_plugins():
     from .seams import F
     F.add_signature_extension(_ambient_sigext)
